@@ -39,5 +39,5 @@ Emit == DoEmit => PrintT(ToJson([f |-> "esc", s |-> Join(s), e |-> Join(XmlEscap
 C(x) == <<x>>
 cChunks == {C("&"), C("<"), C(">"), C("\""), C("'"), C("a"), C(";"), C("#"), C(" "), C("\\"), C("\t"),     \* (backslash and tab: legal, not special -- written as they are)
             <<"&", "a", "m", "p", ";">>, <<"&", "#", "x", "4", "1", ";">>, <<"]", "]", ">">>, <<"<", "!", "[", "C", "D", "A", "T", "A", "[">>,
-            <<"<", "/", "a", ">">>}      \* (an end tag of the enclosing element: what follows it is OUTSIDE the first root)
+            <<"<", "/", "a", ">">>, <<"&", "n", "b", "s", "p", ";">>}      \* (an end tag of the enclosing element: what follows it is OUTSIDE the first root)
 =============================================================================
